@@ -176,6 +176,8 @@ class Impl:
                 vals = [int(F(v)) for _, v in rows]
             if o.get("vdtype") == "bool" and all(v in ("0", "1") for _, v in rows):
                 vals = [v == "1" for _, v in rows]
+            if o.get("vdtype") == "uint8" and all(v != "nan" and F(v).denominator == 1 and 0 <= F(v) < 256 for _, v in rows):
+                vals = np.array([int(F(v)) for _, v in rows], dtype="uint8")
             ser = pd.Series(vals, index=pd.Index(idx))
             self.env[r] = sc.Stairs.from_values(
                 initial_value=num(None if init == "nan" else F(init)), values=ser,
